@@ -309,13 +309,19 @@ where
     /// ```
     pub fn disconnect(&self, other: &K) -> Result<E, Error> {
         match self.find_outbound(other) {
-            Some(other) => match self.inner.2.write().unwrap().remove_outbound(other.key()) {
-                Ok(edge) => {
-                    other.inner.2.write().unwrap().remove_inbound(self.key())?;
-                    Ok(edge)
+            Some(other) => {
+                // The lock on `self` must be released before `other` is
+                // locked: `other` may be `self` (self-loop), and two threads
+                // may disconnect in opposite directions.
+                let removed = self.inner.2.write().unwrap().remove_outbound(other.key());
+                match removed {
+                    Ok(edge) => {
+                        other.inner.2.write().unwrap().remove_inbound(self.key())?;
+                        Ok(edge)
+                    }
+                    Err(_) => Err(Error::EdgeNotFound),
                 }
-                Err(_) => Err(Error::EdgeNotFound),
-            },
+            }
             None => Err(Error::EdgeNotFound),
         }
     }
